@@ -11,11 +11,14 @@ package syncer
 // marker SET canonicalised to "marker".
 
 import (
+	"bufio"
+	"bytes"
 	"context"
 	"encoding/json"
 	"os"
 	"strings"
 	"testing"
+	"fmt"
 	"testing/synctest"
 	"time"
 
@@ -29,6 +32,10 @@ import (
 )
 
 func vfC20Output(c *vfc20.Case, tg *vfdoubles.Target, parallel int) *RedisOutput {
+	pol, perr := c.RealPol()
+	if perr != nil {
+		panic(perr)
+	}
 	cfg := RedisOutputConfig{
 		InputName:                  "vf",
 		CheckpointName:             "vfcp",
@@ -36,7 +43,8 @@ func vfC20Output(c *vfc20.Case, tg *vfdoubles.Target, parallel int) *RedisOutput
 		BisyncEnabled:              c.Mode == "bisync",
 		EnableResumeFromBreakPoint: true,
 		TargetDb:                   -1,
-		KeyExists:                  c.Pol,
+		KeyExists:                  pol,
+		KeyExistsLog:               c.Log,
 		MaxProtoBulkLen:            c.MaxBulk,
 		ReplayRdbEnableRestore:     c.Restore,
 		ReplayRdbParallel:          parallel,
@@ -60,14 +68,28 @@ func vfC20Run(t *testing.T, c *vfc20.Case) *vfc20.Run {
 		return res
 	}
 	synctest.Test(t, func(t *testing.T) {
+		vfc20.SettleClock()
 		tg := vfdoubles.NewTarget()
 		tg.SetNow(time.Now().UnixMilli())
 		for _, p := range c.Pre {
 			vfc20.SeedPre(tg, p)
 		}
+		for _, b := range c.Bad {
+			tg.BadRestore[string(vfutil.UnHex(b))] = true
+		}
 		res.Snapshot(tg, c, res.Before)
 		nSeed := tg.LogLen()
 		ro := vfC20Output(c, tg, 1)
+		if c.Window != "" {
+			fired := false
+			wk := string(vfutil.UnHex(c.Window))
+			tg.Hook = func(idx int, e vfdoubles.LogEntry) {
+				if e.Cmd() == "multi" && !fired {
+					fired = true
+					tg.Seed(e.DB, "set", wk, "CONCURRENT") // another client, between probe and EXEC
+				}
+			}
+		}
 		pipe := make(chan *rdb.BinEntry, len(res.Bins)+1)
 		for _, e := range res.Bins {
 			pipe <- e
@@ -79,6 +101,46 @@ func vfC20Run(t *testing.T, c *vfc20.Case) *vfc20.Run {
 		} else {
 			err = ro.rdbReplay(context.Background(), pipe)
 		}
+		en, key := vfc20.ErrEnum(err)
+		res.Final, res.FailKey = en, key
+		if err != nil {
+			res.ErrText = err.Error()
+		}
+		synctest.Wait()
+		tg.CloseAll()
+		res.Log = tg.LogCopy()[nSeed:]
+		res.Snapshot(tg, c, res.After)
+	})
+	return res
+}
+
+// vfC20RunSend: the REAL SendRdb (parser → distributor → c.Parallel workers)
+// on the snapshot bytes, plain or bidirectional.
+func vfC20RunSend(t *testing.T, c *vfc20.Case) *vfc20.Run {
+	res := c.Prepare()
+	if res.LoadErr != nil {
+		return res
+	}
+	data := vfc20.BuildRDB(c.KVList(), vfc20.Opts{Aux: true})
+	if c.Thr > 0 {
+		old := rdb.VerifSetMaxBinEntryBuffer(c.Thr)
+		defer rdb.VerifSetMaxBinEntryBuffer(old)
+	}
+	synctest.Test(t, func(t *testing.T) {
+		vfc20.SettleClock()
+		tg := vfdoubles.NewTarget()
+		tg.SetNow(time.Now().UnixMilli())
+		for _, p := range c.Pre {
+			vfc20.SeedPre(tg, p)
+		}
+		res.Snapshot(tg, c, res.Before)
+		nSeed := tg.LogLen()
+		cc := *c
+		if c.Mode == "sendbisync" {
+			cc.Mode = "bisync"
+		}
+		ro := vfC20Output(&cc, tg, c.Parallel)
+		err := ro.SendRdb(context.Background(), &vfC04Reader{r: bufio.NewReaderSize(bytes.NewReader(data), 4096), size: int64(len(data))})
 		en, key := vfc20.ErrEnum(err)
 		res.Final, res.FailKey = en, key
 		if err != nil {
@@ -123,6 +185,18 @@ func TestVerifC20Syncer(t *testing.T) {
 		}
 	}
 	for _, l := range vfutil.Corpus("C20") {
+		if strings.HasPrefix(l, "send ") || strings.HasPrefix(l, "sendbisync ") {
+			var c vfc20.Case
+			if err := json.Unmarshal([]byte(l[strings.Index(l, " ")+1:]), &c); err != nil {
+				t.Fatalf("corpus line: %v", err)
+			}
+			r := vfC20RunSend(t, &c)
+			if r.LoadErr == nil {
+				vfc20.CheckParallel(s, &c, r)
+				vfc20.Stats(s, &c, r, "corpus")
+			}
+			continue
+		}
 		for _, mode := range []string{"wplain", "bisync"} {
 			if !strings.HasPrefix(l, "plain ") && !strings.HasPrefix(l, mode+" ") {
 				continue
@@ -132,6 +206,9 @@ func TestVerifC20Syncer(t *testing.T) {
 				t.Fatalf("corpus line: %v", err)
 			}
 			c.Mode = mode
+			if mode == "bisync" {
+				c.Bad = nil // a refused payload inside the unit's EXEC fails the bidirectional replay: not modelled
+			}
 			run(&c, "corpus")
 		}
 	}
@@ -139,6 +216,66 @@ func TestVerifC20Syncer(t *testing.T) {
 		for _, c := range vfc20.Exhaustive(mode) {
 			run(c, "exhaustive")
 		}
+		for _, c := range vfc20.ExhaustiveTwins(mode) {
+			run(c, "exhaustive-twins")
+		}
+		for _, c := range vfc20.ExhaustivePolicyStrings(mode) {
+			run(c, "exhaustive-policy-strings")
+		}
+	}
+	for _, c := range vfc20.ExhaustiveBad("wplain") {
+		run(c, "exhaustive-bad-data")
+	}
+	// a client write between the EXISTS probe and the unit's EXEC (bidirectional, RESTORE path)
+	for _, pol := range []string{"replace", "ignore", "error"} {
+		for _, ty := range []int{0, 1, 4} {
+			c := vfc20.Exhaustive("bisync")[0]
+			c.Pol, c.Restore, c.Thr, c.Pre = pol, true, 0, nil
+			c.KVs[0].Type, c.KVs[0].Exp = ty, 2
+			c.KVs[0].Str, c.KVs[0].Items = "", nil
+			if ty == 0 {
+				c.KVs[0].Str = vfutil.HexS("val")
+			} else {
+				c.KVs[0].Items = []string{vfutil.HexS("f1"), vfutil.HexS("v1")}
+			}
+			c.Window = c.KVs[0].Key
+			r := vfC20Run(t, c)
+			if r.LoadErr != nil {
+				s.Violate("generator-rdb-rejected", r.LoadErr.Error(), c.Replay())
+				continue
+			}
+			vfc20.CheckWindow(s, c, r)
+			s.Count("case_window")
+		}
+	}
+	// the real SendRdb with several workers under every policy, split values included
+	rs := vfutil.NewRand(vfutil.Seed() + 991)
+	ns := vfutil.Scale(250, 4000)
+	for i := 0; i < ns; i++ {
+		c := vfc20.GenCase(rs.Fork(), "send", 2)
+		if i%3 == 2 {
+			c.Mode = "sendbisync"
+		}
+		c.Bad, c.Window = nil, ""
+		c.Parallel = 2 + i%2
+		if i%4 == 0 {
+			// several split hashes so that chunks of different keys interleave across workers
+			c.Thr = 1
+			for j := 0; j < 3; j++ {
+				key := vfutil.HexS(fmt.Sprintf("sh%d", j))
+				c.KVs = append(c.KVs, vfc20.KVSpec{DB: 1, Key: key, Type: 4, Items: []string{vfutil.HexS("a"), vfutil.HexS("1"), vfutil.HexS("b"), vfutil.HexS("2"), vfutil.HexS("c"), vfutil.HexS("3")}})
+				if j != 1 {
+					c.Pre = append(c.Pre, vfc20.Pre{DB: 1, Key: key, Kind: "hash"})
+				}
+			}
+		}
+		r := vfC20RunSend(t, c)
+		if r.LoadErr != nil {
+			s.Violate("generator-rdb-rejected", r.LoadErr.Error(), c.Replay())
+			continue
+		}
+		vfc20.CheckParallel(s, c, r)
+		vfc20.Stats(s, c, r, "send-parallel")
 	}
 	r := vfutil.NewRand(vfutil.Seed() + 77)
 	n := vfutil.Scale(1200, 20000)
